@@ -44,7 +44,7 @@ def main():
         t = time.time(); r1 = sh([PY, demo], cwd=wt, env=env, timeout=600)
         log['demo_patched_exit'] = r1.returncode; log['demo_patched_s'] = round(time.time() - t, 1)
         log['demo_patched_tail'] = (r1.stdout + r1.stderr)[-600:]
-        r = sh([PY, '/tmp/seedtask/suite_check.py', wt, '-n', '6'])
+        r = sh([PY, os.path.join(VERIF, 'tools', 'suite_check.py'), wt, '-n', '6'])
         log['suite_ok'] = r.returncode == 0
         log['suite_tail'] = r.stdout[-300:]
         ok = (log['applies'] and log['imports'] and log['demo_clean_exit'] == 0 and log['demo_patched_exit'] != 0
